@@ -90,3 +90,17 @@ Theorem C14_pids_agree_decoded : forall c x, wf_carrier c ->
             (pid_exists p x = true <-> In x (map epid (sstreams (sec c)))).
 Proof. exact pids_agree_decoded. Qed.
 Print Assumptions C14_pids_agree_decoded.
+
+(* inputs_unchanged: the model is a function of values, so "the input packets are not modified" has no content here;
+   goexec snapshots the input packets and the PID slice before the call and compares after it (last field of the
+   pmt.filter observation, always 0 = unchanged in the model) - aliasing is outside the technique (DESIGN section 10). *)
+
+(* non-vacuity: a three-stream PMT with descriptors in two packets with adaptation fields; requested a present PID, an
+   absent PID and the PAT PID: one stream kept, error names exactly the absent PID, two output packets *)
+Example C14_nonvacuous :
+  wf_carrier exf_carrier /\ pre exf_carrier = [] /\ all_mine exf_items /\ Forall (wf_item 481) exf_items /\
+  concat (chunks exf_items) = ser_payload exf_carrier /\
+  missing_of (map epid (sstreams (sec exf_carrier))) 481 [258; 9; 0] = [9] /\
+  map epid (sstreams (filtered_sec (sec exf_carrier) [258; 9; 0])) = [258] /\
+  exists out, filter_pmt_packets (ser_items 481 true exf_items) [258; 9; 0] = Ok (Some out, Some [9]) /\ length out = 2%nat.
+Proof. exact filter_nonvacuous. Qed.
